@@ -80,3 +80,31 @@ theorem erase_of_get?_none (d : Dict) (k : String) (h : d.get? k = none) : d.era
       simp [erase, h1, ih h]
 
 end Gnpy.Dict
+
+namespace Gnpy.Dict
+
+theorem set_append_of_get?_none (d : Dict) (k : String) (v : J) (h : d.get? k = none) :
+    d.set k v = d ++ [(k, v)] := by
+  induction d with
+  | nil => rfl
+  | cons kv t ih =>
+    obtain ⟨k', v'⟩ := kv
+    by_cases h1 : k' = k
+    · simp [get?, h1] at h
+    · simp only [get?, beq_iff_eq, h1, if_false] at h
+      simp [set, h1, ih h]
+
+theorem get?_none_iff_not_mem_keys (d : Dict) (k : String) : d.get? k = none ↔ k ∉ d.map (·.1) := by
+  induction d with
+  | nil => simp [get?]
+  | cons kv t ih =>
+    obtain ⟨k', v'⟩ := kv
+    by_cases h1 : k' = k
+    · simp [get?, h1]
+    · simp only [get?, beq_iff_eq, h1, if_false, List.map_cons, List.mem_cons, not_or]
+      rw [ih]
+      constructor
+      · intro h; exact ⟨fun e => h1 e.symm, h⟩
+      · intro h; exact h.2
+
+end Gnpy.Dict
